@@ -111,11 +111,7 @@ func (s *JavaAPIListener) EnterAnnotation(ctx *parser.AnnotationContext) {
 
 	currentRestAPI = api_domain2.RestAPI{Uri: uriRemoveQuote}
 	if annotationName != "RequestMapping" {
-		if hasEnterClass {
-			addApiMethod(annotationName)
-		}
-
-		return
+		addApiMethod(annotationName)
 	}
 
 	if ctx.ElementValuePairs() != nil {
